@@ -29,7 +29,7 @@ inductive PUpd where
 abbrev NodeUpd := List (Nat × PUpd)
 abbrev DbUpdates := List (Nat × NodeUpd)
 
-def Db := PKey → List (Nat × Nat)
+abbrev Db := PKey → List (Nat × Nat)
 
 def Db.empty : Db := fun _ => []
 
